@@ -7,7 +7,7 @@ Extraction "model.ml" extraction_prelude
   sample_prog exec exec_ok empty_store obs vis_of mcfg_of sb_sample sb_timed
   thread_log thread_log_panic sb_thread sb_nodouble sb_nodouble_local split_samples
   rounds eff_aux eff_size run_threads run_vis
-  interp script_fn sample_figures spec_figures run_alloc_infos figures_empty tally_of timed_ops
+  interp kept_of script_fn sample_figures spec_figures run_alloc_infos figures_empty tally_of timed_ops
   panic_fires cut_prog mon_run mstate0 mon_final localize
   thread_log_sizes sb_thread_sizes sample_figures_at spec_figures_at
   resolve counters_in_force.
